@@ -109,22 +109,19 @@ Lemma orphan_history_invisible :
   /\ snd (vdeliver o_verr 0 (vrun o_verr 0 o_root (firstn 2 o_hist)) (mkI (mkB 1 0 1 1) 0 PBcast)) = (true, false, VNone).
 Proof. vm_compute. repeat split. Qed.
 
-(** ---- 4. ProcessBlock does not panic ---- *)
-Definition C27_no_panic_full : Prop :=
-  forall verr fin g hist i,
-    snd (snd (vdeliver verr fin (vrun verr fin g hist) i)) <> VPanic.
-
-(** witness: as in 1, but the failing block 21 came by the download path as a
-    side block (body 1), its child 22 started the reorganisation (21 fails, is
-    deleted from the index, its parent pointer cleared), a heavy sibling 23 of
-    the old tip takes the chain back, and then 24, a child of 22, arrives *)
+(** ---- 4. ProcessBlock does not panic: holds since the nil-fork guard in
+    connectBestChain (proved in Proofs2).  The history that used to panic: as
+    in 1, but the failing block 21 came by the download path as a side block
+    (body 1), its child 22 started the reorganisation (21 fails, is deleted
+    from the index, its parent pointer cleared), a heavy sibling 23 of the old
+    tip takes the chain back, and then 24, a child of 22, arrives: it is now
+    refused with "parent block does not exist" ---- *)
 Definition n_hist : list item :=
   w_trunk ++ [w_side12; mkI (mkB 21 20 13 1) 1 PDown; mkI (mkB 22 21 14 1) 0 PBcast;
               mkI (mkB 23 12 13 9) 0 PBcast].
 Definition n_verr (h b : N) : N := if N.eqb h 21 && N.eqb b 1 then 1%N else 0%N.
 
-Lemma no_panic_refuted : ~ C27_no_panic_full.
-Proof.
-  intro H. specialize (H n_verr 0 w_root n_hist (mkI (mkB 24 22 15 1) 0 PBcast)).
-  vm_compute in H. apply H. reflexivity.
-Qed.
+Lemma nil_fork_refused :
+  snd (vdeliver n_verr 0 (vrun n_verr 0 w_root n_hist) (mkI (mkB 24 22 15 1) 0 PBcast)) = (false, false, VParent)
+  /\ vtip (vstep n_verr 0 (vrun n_verr 0 w_root n_hist) (mkI (mkB 24 22 15 1) 0 PBcast)) = 23%N.
+Proof. vm_compute. split; reflexivity. Qed.
